@@ -34,7 +34,7 @@ StorageVariants == { V("write", 0, "none"), V("write_revert", 0, "c42"), V("read
                      V("write", 1, "none") }
 Variants == IF PType = "contract" THEN PlainVariants \cup StorageVariants ELSE PlainVariants
 CoreVariants == IF PType = "contract"
-                THEN { V("ok", 0, "none"), V("panic", 0, "none"), V("write", 0, "none"), V("read", 0, "none"),
+                THEN { V("panic", 0, "none"), V("write", 0, "none"), V("read", 0, "none"),
                        V("log", 0, "none"), V("write_revert", 0, "c42") }
                 ELSE { V("ok", 0, "none"), V("panic", 0, "none"), V("log", 0, "none"), V("revert", 0, "c42") }
 
